@@ -308,6 +308,61 @@ func registeredByHelper(p *core.Prog, b, pv ssa.Value, accessor *ssa.Function, d
 		}
 		return nil, 0, false
 	}
+	// tuple form: builder and partition are two results of one helper call
+	// (j, partition, err := loadJournal(…)): inside the helper, Days(accessor(p0)) on
+	// the returned builder dominates each success return
+	if be, ok := core.Strip(b).(*ssa.Extract); ok {
+		pe, ok2 := core.Strip(pv).(*ssa.Extract)
+		if !ok2 {
+			// the partition may have been spilled to a local for a method call
+			if ld, isLd := pv.(*ssa.UnOp); isLd {
+				if al, isAl := ld.X.(*ssa.Alloc); isAl {
+					if sts := core.AllStoresToCell(al); len(sts) == 1 {
+						pe, ok2 = core.Strip(sts[0].Val).(*ssa.Extract)
+					}
+				}
+			}
+		}
+		if ok2 && be.Tuple == pe.Tuple {
+			if hc, isCall := be.Tuple.(*ssa.Call); isCall && core.Dominates(hc, build) {
+				h := hc.Call.StaticCallee()
+				if h != nil && h.Blocks != nil && p.InModule(h) {
+					all, any := true, false
+					core.EachInstr(h, func(ins ssa.Instruction) {
+						ret, isRet := ins.(*ssa.Return)
+						if !isRet || be.Index >= len(ret.Results) || pe.Index >= len(ret.Results) {
+							return
+						}
+						j0, p0 := ret.Results[be.Index], ret.Results[pe.Index]
+						if core.IsNilConst(j0) {
+							return // an error return
+						}
+						any = true
+						found := false
+						core.EachInstr(h, func(i2 ssa.Instruction) {
+							call, isCall := i2.(*ssa.Call)
+							if !isCall || call.Call.StaticCallee() != daysFn || !p.SameExpr(call.Call.Args[0], j0) {
+								return
+							}
+							acc, isAcc := call.Call.Args[1].(*ssa.Call)
+							if !isAcc || acc.Call.StaticCallee() != accessor || len(acc.Call.Args) < 1 {
+								return
+							}
+							if (p.SameExpr(acc.Call.Args[0], p0) || sameLoadedValue(p, acc.Call.Args[0], p0)) && core.Dominates(call, ret) {
+								found = true
+							}
+						})
+						if !found {
+							all = false
+						}
+					})
+					if any && all {
+						return true
+					}
+				}
+			}
+		}
+	}
 	bx, bf, ok1 := fieldOf(b)
 	px, pf, ok2 := fieldOf(pv)
 	if !ok1 || !ok2 || !p.SameExpr(bx, px) {
